@@ -1,6 +1,7 @@
 import StepModel.ExpLexLayout
 import StepModel.ExpLexStr
 import StepModel.ExpLexGlue
+import StepModel.ExpSplitCtx
 /-!
 # C07, character level: what the scanner reads from the laid-out text of an expression
 
@@ -314,6 +315,22 @@ theorem C07_split_literal_rejoined_paren (x : List Char) (ys : List (List Char))
     parse ([.lp] ++ sumToks ((x :: ys).map escQ) ++ [.rp]) = some (sumExpr x ys) := by
   rw [← toks_sumExpr_paren x ys hne]
   exact C07_parse_print_paren _ (wfE_sumExpr x ys)
+
+/-- **Split string literals inside an arbitrary surrounding expression are re-joined (parser congruence).**  Let `e'` be `e`
+with any of its simple string literals, anywhere, replaced by left-nested sums of literals whose pieces concatenate to them
+(`SplitOf e' e`).  Then (1) the tokens printed for `e'` are the tokens of `e` with each such literal as a split rendering —
+`'x1' + … + 'xn'`, in parentheses exactly where the literal is an operand (`Joined`, the relation `C07_lex_layout_strings_partial`
+reports for what the scanner reads); (2) the parser reads those tokens back as `e'`; (3) `joinStr e' = joinStr e`: the one
+identification the oracle applies maps both to the same tree.  So whenever the scanner's reading of exppp's text is the token
+list of such an `e'` — the split renderings carry the parentheses `binParen` prescribes, which in operand position is
+`C07_operand_literal_whole_or_parenthesised_partial` — parse ∘ joinStr recovers the source expression.  Not covered: a literal
+printed whole inside redundant parentheses `( 'ab' )` (possible when the look-ahead predicted a split that then did not happen);
+that token list is not of the form `toks e'`. -/
+theorem C07_split_literals_in_context (e' e : Expr) (h : SplitOf e' e) (hw : wfE e) :
+    Joined (toks Shared.clean e' false none) (toks Shared.clean e false none)
+      ∧ parse (toks Shared.clean e' false none) = some e'
+      ∧ joinStr e' = joinStr e :=
+  ⟨(joined_splitOf h).1 false none, C07_parse_print e' ((wf_splitOf h).1 hw), joinStr_splitOf h⟩
 
 /-- grammar token of a punctuation/operator token of the model -/
 def symTokName : Tok → Option String
